@@ -28,10 +28,20 @@ PROPS = {
         "assumptions": ["equal secret-key responses under one challenge imply equal secrets by the two-transcript extractor of the Schnorr proof (standard; cited)"],
         "partial": ["extractor argument from equal responses to equal secret values is cited, not mechanised"],
     },
+    "C04": {
+        "suite": "C04", "ref_sample": 3, "trusted": CORE_TRUSTED,
+        "assumptions": ["statistical hiding of responses (randomizer Lstatzk bits longer than c*m) is the standard argument, cited"],
+        "partial": ["algebraic completeness (every honest proof verifies) is established by correspondence + honest-run oracle over all subsets; the Coq completeness theorem disclosure_complete is stated in DESIGN.md as pending"],
+    },
     "C05": {
         "suite": "C05", "ref_sample": 4, "trusted": CORE_TRUSTED + ["big.Int.ProbablyPrime enters the model as an observed oracle value"],
         "assumptions": ["'never verifies against a different block/key' beyond the explicit rejection conditions proved is the strong-RSA argument of CL03 (cited)"],
         "partial": ["unforgeability against different message blocks is the CL03 reduction (not mechanised); primality is relative to the ProbablyPrime oracle"],
+    },
+    "C06": {
+        "suite": "C06", "ref_sample": 4, "trusted": CORE_TRUSTED + ["big.Int.ProbablyPrime and Witness.Verify enter the model as observed oracle values"],
+        "assumptions": [],
+        "partial": ["'altered message => reject' beyond construct_only_if is the hash / strong-RSA argument (cited)"],
     },
     "C08": {
         "suite": "C08",
